@@ -352,6 +352,21 @@ func (h *Hist) scripted(act string, height int64, bt time.Time, codes map[string
 		res, taken := h.deliver(height, bt, bz, txs, results)
 		codes["unjail "+codeStr(res)]++
 		h.tr.Line("unjail", res.Code == 0, "%s => %s %d %s", line, codeStr(res), taken, h.snap)
+	case "edit":
+		// an edit-stake by the operator that changes nothing (same amount, chains, url, output, delegators)
+		v, ok := h.snap.Vals[k.Addr.String()]
+		if !ok {
+			return
+		}
+		out := v.OutputAddress
+		if out == nil {
+			out = k.Addr
+		}
+		bz := chain.SignTx(chainID, k, chain.MsgNodeStake(k, v.StakedTokens.Int64(), v.Chains, v.ServiceURL, out, v.RewardDelegators), fee, h.nextEntropy(), "")
+		line := h.stakeLine(height, k, k, v.StakedTokens.Int64(), v.Chains, v.ServiceURL, out, v.RewardDelegators)
+		res, taken := h.deliver(height, bt, bz, txs, results)
+		codes["stake "+codeStr(res)]++
+		h.tr.Line("stake", res.Code == 0, "%s => %s %d %s", line, codeStr(res), taken, h.snap)
 	case "stake":
 		amt := h.snap.Params.StakeMinimum + 1000000
 		chains, url := []string{"0001"}, "https://again.example:443"
@@ -377,7 +392,7 @@ func (h *Hist) action(height int64, bt time.Time, codes map[string]int, txs *[][
 	}
 	menu := []choice{
 		{h.w(14, "c23", 6), "stakenew"}, {h.w(h.w(5, "c19", 12), "c24", 12), "restake"}, {h.w(16, "c23", 40), "edit"}, {h.w(12, "c24", 22), "unstake"}, {h.w(10, "c25", 18), "unjail"},
-		{h.w(7, "c22", 14), "param"}, {h.w(8, "c25", 18), "slash"}, {4, "burnchal"}, {4, "reward"}, {h.w(2, "c19", 5), "send"}, {h.w(2, "c21", 12), "chainedit"}, {h.w(2, "c23", 30), "deledit"},
+		{h.w(7, "c22", 14), "param"}, {h.w(8, "c25", 18), "slash"}, {4, "burnchal"}, {4, "reward"}, {h.w(2, "c19", 5), "send"}, {h.w(2, "c21", 12), "chainedit"}, {h.w(2, "c23", 30), "deledit"}, {h.w(1, "c23", 14), "takeover"},
 	}
 	if height < 3 {
 		// transactions of block h are decoded with the rules of height h-1: the modern node messages exist from block 3
@@ -566,6 +581,32 @@ func (h *Hist) action(height int64, bt time.Time, codes map[string]int, txs *[][
 		}
 		bz := chain.SignTx(chainID, k, chain.MsgNodeStake(k, v.StakedTokens.Int64(), chains, v.ServiceURL, out, v.RewardDelegators), fee, h.nextEntropy(), "")
 		line := h.stakeLine(height, k, k, v.StakedTokens.Int64(), chains, v.ServiceURL, out, v.RewardDelegators)
+		res, taken := h.deliver(height, bt, bz, txs, results)
+		record(line, res, taken)
+	case "takeover":
+		// an otherwise acceptable edit-stake (same chains, url and delegators, amount = current stake or a bump the
+		// signer can pay) of a staked node, signed by a third party (neither operator nor current output address) that
+		// names itself as the output address; custodial records (stored output address nil) are preferred
+		if len(staked) == 0 {
+			return
+		}
+		v := staked[r.Intn(len(staked))]
+		for i := 0; i < 6 && v.OutputAddress != nil; i++ {
+			v = staked[r.Intn(len(staked))]
+		}
+		k := h.keyOf[v.Address.String()]
+		var signer chain.Key
+		found := false
+		for i := 0; i < 8 && !found; i++ {
+			signer = h.outs[r.Intn(len(h.outs))]
+			found = !signer.Addr.Equals(v.Address) && (v.OutputAddress == nil || !signer.Addr.Equals(v.OutputAddress))
+		}
+		if !found {
+			return
+		}
+		amt := v.StakedTokens.Int64() + []int64{0, 0, 1, 1000000, 15000000000}[r.Intn(5)]
+		bz := chain.SignTx(chainID, signer, chain.MsgNodeStake(k, amt, v.Chains, v.ServiceURL, signer.Addr, v.RewardDelegators), fee, h.nextEntropy(), "")
+		line := h.stakeLine(height, signer, k, amt, v.Chains, v.ServiceURL, signer.Addr, v.RewardDelegators)
 		res, taken := h.deliver(height, bt, bz, txs, results)
 		record(line, res, taken)
 	case "deledit":
